@@ -1260,6 +1260,8 @@ class C11(TwoPass):
             if tr and tr[-1]["name"] == "driver-error":
                 vs.append({"msg": "driver died: %r" % outcome_of(tr[-1]), "shape": "io-hang"})
             return vs
+        if len(cmds) < 2 or not cmds[-2].startswith("fault ") or not cmds[-1].startswith("open "):
+            return vs       # not a fault-injection case (e.g. an over-shrunk script): nothing to judge
         out = outcome_of(tr[-1]) or ""
         if "err=Hang" in out:
             vs.append({"msg": "`%s`: open did not return within the deadline" % cmds[-2], "shape": "io-hang"})
